@@ -25,7 +25,7 @@ def single_defs(p, f):
             for x in ast.walk(t):
                 if isinstance(x, ast.Name):
                     counts[x.id] = counts.get(x.id, 0) + 2
-    return {k: v for k, v in out.items() if counts.get(k) == 1 and k not in f.all_params()}
+    return {k: v for k, v in out.items() if counts.get(k) == 1 and k not in f.all_params() and k not in f.rebound_by_nested()}
 
 
 class _Subst(ast.NodeTransformer):
@@ -498,53 +498,173 @@ def num_shorthex(p, res):
 # ------------------------------------------------------------- NUM-FIELDIDX
 @rule('NUM-FIELDIDX', 'D', 'tabstop numbers: state.field + relative index, advanced by largest relative index + 1')
 def num_fieldidx(p, res):
+    """Decided on symbolic summaries of push_tokens: (a) the statements before the loop give the start value of the running
+    accumulator, (b) one generic iteration with the accumulator symbolic gives the emitted number and the update, (c) the
+    statements after the loop give the advance of state.field."""
+    from .. import sympath, norm, shape
     f = p.func('markup.format.utils.push_tokens')
-    calls = [n for n in f.body_nodes() if isinstance(n, ast.Call) and isinstance(n.func, ast.Attribute) and n.func.attr == 'push_field']
-    if len(calls) != 1:
-        raise AnalysisError('NUM-FIELDIDX: push_tokens has %d push_field calls' % len(calls))
-    c = calls[0]
-    lin = linear(c.args[0]) if c.args else None
-    loopvar = None
-    for n in f.body_nodes():
-        if isinstance(n, ast.For) and isinstance(n.target, ast.Name):
-            loopvar = n.target.id
-    if lin != {'state.field': 1, '%s.index' % loopvar: 1}:
-        res.bad(F('NUM-FIELDIDX', f, c, src_of(c), 'emitted tabstop number must be state.field + token.index, is %s' % show(lin)))
-    else:
-        res.ok('push_field(state.field + t.index, ..)')
-    if len(c.args) < 2 or src_of(c.args[1]) != '%s.name' % loopvar:
-        res.bad(F('NUM-FIELDIDX', f, c, src_of(c), 'placeholder must be the token name'))
-    else:
-        res.ok('placeholder = t.name')
-    s = src_of(f.node)
-    li = [n for n in f.body_nodes() if isinstance(n, ast.Assign) and src_of(n.targets[0]) == 'largest_index']
-    init_ok = li and p.try_const(f, li[0].value) == -1
-    cmp_ok = any(isinstance(n, ast.If) and src_of(n.test) == '%s.index > largest_index' % loopvar
-                 and [src_of(x) for x in n.body] == ['largest_index = %s.index' % loopvar] for n in f.body_nodes())
-    adv = [n for n in f.body_nodes() if isinstance(n, ast.AugAssign) and src_of(n.target) == 'state.field']
-    adv_ok = len(adv) == 1 and isinstance(adv[0].op, ast.Add) and linear(adv[0].value) == {'largest_index': 1, '1': 1}
-    guard_ok = any(isinstance(n, ast.If) and src_of(n.test) in ('largest_index != -1', 'largest_index >= 0', 'largest_index > -1') and adv and adv[0] in n.body for n in f.body_nodes())
-    for okk, what, msg in ((init_ok, 'largest_index = -1', 'largest relative index starts at -1'),
-                           (cmp_ok, 'if t.index > largest_index: largest_index = t.index', 'the running maximum compares *relative* indexes'),
-                           (adv_ok, 'state.field += largest_index + 1', 'the next value starts after the largest index used'),
-                           (guard_ok, 'if largest_index != -1', 'the counter only advances when a field was emitted')):
-        if okk:
-            res.ok(what)
+    fn = norm.nf(p, f, inline=True)
+    body = [st for st in fn.body if not (isinstance(st, ast.Expr) and isinstance(st.value, ast.Constant))]
+    loops = [i for i, st in enumerate(body) if isinstance(st, ast.For)]
+    if len(loops) != 1 or not isinstance(body[loops[0]].target, ast.Name) or src_of(body[loops[0]].iter) != f.params[0]:
+        res.undecided('push_tokens', 'one top-level loop over the tokens expected')
+        res.require_floor(9)
+        return
+    li = loops[0]
+    lp = body[li]
+    T = lp.target.id
+    ST = f.params[1]
+    try:
+        pre = sympath.feasible(sympath.block_summaries(p, f, body[:li]))
+        carried = sorted({n.id for n in ast.walk(ast.Module(body=lp.body, type_ignores=[])) if isinstance(n, ast.Name) and isinstance(n.ctx, ast.Store)} - {T})
+        env0 = dict(pre[0].env) if len(pre) == 1 else {}
+        acc_env = dict(env0)
+        for c in carried:
+            acc_env[c] = ast.Name(id='_acc_' + c, ctx=ast.Load())
+        its = sympath.feasible(sympath.block_summaries(p, f, lp.body, env=acc_env))
+        post_env = dict(env0)
+        for c in carried:
+            post_env[c] = ast.Name(id='_fin_' + c, ctx=ast.Load())
+        post = sympath.feasible(sympath.block_summaries(p, f, body[li + 1:], env=post_env))
+    except sympath.Unsupported as e:
+        res.undecided('push_tokens', str(e))
+        res.require_floor(9)
+        return
+    if len(pre) != 1:
+        res.undecided('push_tokens', 'statements before the loop are conditional')
+    FIELD = '%s.field' % ST
+    acc = None           # the carried variable that holds the running maximum
+    n_field = n_str = 0
+    for q in its:
+        rc = q.rconds()
+        isstr = rc.get('isinstance(%s, str)' % T)
+        emitted = [(q.resolve(n)) for sym, n, _ in q.events if sym.startswith('_c')]
+        where = ['iteration path: ' + q.cond_str()]
+        if q.exit not in ('end', 'continue'):
+            res.bad(F('NUM-FIELDIDX', f, lp, '%s [%s]' % (q.exit, q.cond_str()), 'every token of the value must be emitted: the loop may not stop early', details=where))
+            continue
+        if isstr is True:
+            if len(emitted) == 1 and src_of(emitted[0].func).endswith('.push_string') and src_of(emitted[0].args[0]) == T \
+                    and all(src_of(q.env.get(c)) == '_acc_' + c for c in carried):
+                n_str += 1
+            elif not emitted:
+                res.bad(F('NUM-FIELDIDX', f, lp, 'string token [%s]' % q.cond_str(), 'a text token is not printed', details=where))
+            else:
+                res.undecided('string token: %s' % [src_of(x) for x in emitted], 'push_string(token) and nothing else')
+            continue
+        if isstr is None:
+            res.undecided('iteration path %s' % q.cond_str(), 'does not distinguish text from fields')
+            continue
+        pf = [x for x in emitted if src_of(x.func).endswith('.push_field')]
+        if len(pf) != 1 or len(emitted) != 1:
+            if not pf:
+                res.bad(F('NUM-FIELDIDX', f, lp, 'field token [%s]' % q.cond_str(), 'a field token is not printed', details=where))
+            else:
+                res.undecided('field token: %s' % [src_of(x) for x in emitted], 'one push_field')
+            continue
+        c0 = pf[0]
+        lin = linear(c0.args[0]) if c0.args else None
+        if lin != {FIELD: 1, '%s.index' % T: 1}:
+            res.bad(F('NUM-FIELDIDX', f, lp, src_of(c0), 'emitted tabstop number must be state.field + token.index, is %s' % show(lin), details=where))
+            continue
+        if len(c0.args) < 2 or src_of(c0.args[1]) != '%s.name' % T:
+            res.bad(F('NUM-FIELDIDX', f, lp, src_of(c0), 'placeholder must be the token name', details=where))
+            continue
+        # accumulator update
+        changed = {c: q.resolve(q.env[c]) for c in carried if src_of(q.env.get(c)) != '_acc_' + c}
+        IDX = '%s.index' % T
+        for c in carried:
+            A = '_acc_' + c
+            new = src_of(q.resolve(q.env[c]))
+            gt = rc.get('%s > %s' % (IDX, A))
+            if gt is None and rc.get('%s < %s' % (A, IDX)) is not None:
+                gt = rc['%s < %s' % (A, IDX)]
+            if gt is None and rc.get('%s >= %s' % (A, IDX)) is not None:
+                gt = not rc['%s >= %s' % (A, IDX)]
+            if gt is None and rc.get('%s <= %s' % (IDX, A)) is not None:
+                gt = not rc['%s <= %s' % (IDX, A)]
+            if new in ('max(%s, %s)' % (A, IDX), 'max(%s, %s)' % (IDX, A)) or (gt is True and new == IDX) or (gt is False and new == A):
+                acc = c
+                n_field += 1
+            elif new == A and gt is None:
+                continue            # not the accumulator
+            elif new in (IDX, T) and gt is None:
+                res.bad(F('NUM-FIELDIDX', f, lp, '%s = %s' % (c, new), 'the counter must advance past the *largest* index used, not the last one: ${2} ${1} would hand out tabstop 2 twice', details=where))
+            elif FIELD in new or any(FIELD in k for k in rc if A in k):
+                res.bad(F('NUM-FIELDIDX', f, lp, '%s = %s [%s]' % (c, new, q.cond_str()), 'the running maximum compares *relative* indexes (the absolute number is state.field + index)', details=where))
+            else:
+                res.undecided('%s = %s [%s]' % (c, new, q.cond_str()), 'running maximum of token.index')
+    if n_str and n_field and acc:
+        res.ok('push_tokens: text through push_string, fields as push_field(state.field + index, name), %s = running maximum of the relative indexes' % acc, n=4)
+    elif not acc:
+        res.undecided('push_tokens', 'no running maximum recognised')
+    if acc:
+        init = p.try_const(f, env0.get(acc)) if env0.get(acc) is not None else None
+        if init == -1:
+            res.ok('largest relative index starts at -1')
+        elif isinstance(init, int):
+            res.bad(F('NUM-FIELDIDX', f, f.node, '%s = %r' % (acc, init), 'largest relative index starts at -1 (index 0 is a valid field)'))
         else:
-            res.bad(F('NUM-FIELDIDX', f, f.node, what, msg))
-    # the loop is a plain for over the tokens with no early exit
-    if any(isinstance(n, (ast.Break, ast.Continue, ast.Return)) for n in f.body_nodes()):
-        res.bad(F('NUM-FIELDIDX', f, f.node, 'early exit in push_tokens', 'every token of the value must be emitted'))
-    else:
-        res.ok('no early exit')
+            res.undecided('%s initial value' % acc, '-1')
+        FIN = '_fin_' + acc
+        adv = 0
+        for q in post:
+            rc = {}
+            for k, v in q.rconds().items():
+                try:
+                    e = ast.parse(k, mode='eval').body
+                except SyntaxError:
+                    continue
+                if isinstance(e, ast.Compare) and len(e.ops) == 1:
+                    cv = p.try_const(f, e.comparators[0])
+                    if isinstance(cv, int):
+                        e = ast.Compare(left=e.left, ops=e.ops, comparators=[ast.Constant(value=cv)])
+                rc[src_of(e)] = v
+            some = None
+            for k, v in rc.items():
+                if k in ('%s != -1' % FIN, '%s >= 0' % FIN, '%s > -1' % FIN):
+                    some = v
+                elif k in ('%s == -1' % FIN, '%s < 0' % FIN):
+                    some = not v
+            st = [q.resolve(n) for sym, n, _ in q.events if sym == '=' and src_of(n.targets[0]) == FIELD]
+            if some is True:
+                if len(st) == 1 and linear(st[0].value) == {FIELD: 1, FIN: 1, '1': 1}:
+                    adv += 1
+                elif len(st) == 1:
+                    res.bad(F('NUM-FIELDIDX', f, f.node, '%s = %s' % (FIELD, src_of(st[0].value).replace(FIN, acc)), 'the next value starts after the largest index used: state.field += largest + 1'))
+                else:
+                    res.bad(F('NUM-FIELDIDX', f, f.node, 'no advance [%s]' % q.cond_str().replace(FIN, acc), 'the field counter does not advance although fields were emitted: the next value re-uses their numbers'))
+            elif some is False:
+                if st:
+                    res.bad(F('NUM-FIELDIDX', f, f.node, '%s = %s' % (FIELD, src_of(st[0].value).replace(FIN, acc)), 'the counter only advances when a field was emitted'))
+                else:
+                    adv += 1
+            else:
+                if st and linear(st[0].value) == {FIELD: 1, FIN: 1, '1': 1}:
+                    adv += 2        # unconditional: -1 + 1 == 0, same thing
+                else:
+                    res.undecided('after the loop [%s]' % q.cond_str().replace(FIN, acc), 'if largest != -1: state.field += largest + 1')
+        if adv >= 2:
+            res.ok('state.field += largest + 1 exactly when a field was emitted', n=2)
     ws = p.cls('markup.format.walk.WalkState').methods['__init__']
-    if 'self.field = 1' in src_of(ws.node):
+    st = [n for n in ws.body_nodes() if isinstance(n, ast.Assign) and src_of(n.targets[0]) == 'self.field']
+    if len(st) == 1 and p.try_const(ws, st[0].value) == 1:
         res.ok('WalkState.field starts at 1')
+    elif len(st) == 1 and isinstance(p.try_const(ws, st[0].value), int):
+        res.bad(F('NUM-FIELDIDX', ws, st[0], src_of(st[0]), 'tabstops are numbered from 1'))
     else:
-        res.bad(F('NUM-FIELDIDX', ws, ws.node, 'self.field = 1', 'tabstops are numbered from 1'))
+        res.undecided('WalkState.field', 'self.field = 1')
     m, node = p.module_const('markup.format.utils', 'caret')
-    if src_of(node) == "[Field('', 0)]":
-        res.ok("caret = [Field('', 0)]")
+    if isinstance(node, ast.List) and len(node.elts) == 1 and isinstance(node.elts[0], ast.Call) and src_of(node.elts[0].func) == 'Field':
+        c = node.elts[0]
+        args = {**{k.arg: k.value for k in c.keywords}}
+        fi = p.cls('abbreviation.tokenizer.tokens.Field').methods['__init__'].params[1:]
+        for nm, a in zip(fi, c.args):
+            args[nm] = a
+        if p.try_const(m, args.get('index')) == 0:
+            res.ok("caret = one field with relative index 0")
+        else:
+            res.bad(Finding('NUM-FIELDIDX', m.relpath, 'markup.format.utils.caret', src_of(node), 'the default caret is one field with relative index 0', node.lineno))
     else:
-        res.bad(Finding('NUM-FIELDIDX', m.relpath, 'markup.format.utils.caret', src_of(node), 'the default caret is one field with relative index 0', node.lineno))
+        res.undecided('caret = %s' % src_of(node), 'one Field with index 0')
     res.require_floor(9)
